@@ -15,7 +15,7 @@ from .exit import compare_atom
 from .mainmodel import mainmodel
 
 
-@rule("RET", min_instances=3)
+@rule("RET", min_instances=2)
 def rule_ret(ctx: Ctx) -> List[Ob]:
     """every return of minimize_lbfgsb hands back an OptimizeResult built at the return from the
     current termination state (message/success/status from the internal state, counters from the
